@@ -40,12 +40,16 @@ TUnwind == Consume("unwind") /\ pc = "unwind" /\ Top.name = Ev.a /\ Top.i = Ev.i
 TPop == Consume("pop") /\ Top.name = Ev.a /\ Record /\ Logged
 
 Site(s) == <<s[1], s[2], 2 * s[2] - 1>>       \* call i of a generated script sits at line i, column 2i-1
+\* number of leading entries that lie in script f (a broken script's own error may carry several positions)
+RECURSIVE OwnPrefix(_, _, _)
+OwnPrefix(raw, f, k) == IF k < Len(raw) /\ raw[k + 1][1] = f THEN OwnPrefix(raw, f, k + 1) ELSE k
 ChainOK(e, raw, root) ==
   /\ Len(raw) >= 1
-  /\ LET tail == IF e.kind = "missing" THEN raw ELSE Tail(raw)
-     IN /\ Len(tail) = Len(e.sites)
+  /\ LET own == IF e.kind \in {"parse", "check"} THEN OwnPrefix(raw, e.name, 0) ELSE IF e.kind = "missing" THEN 0 ELSE 1
+         tail == SubSeq(raw, own + 1, Len(raw))
+     IN /\ (e.kind \in {"parse", "check"} => own >= 1)
+        /\ Len(tail) = Len(e.sites)
         /\ \A k \in 1..Len(tail) : tail[k] = Site(e.sites[k])
-  /\ e.kind \in {"parse", "check"} => raw[1][1] = e.name
   /\ e.kind = "cycle" => /\ raw[1][1] \in {root, e.sites[1][1]}
                          /\ raw[1][2] = e.sites[1][2] /\ raw[1][3] = 2 * e.sites[1][2] - 1
 
